@@ -45,7 +45,26 @@ func gen(r *hx.Rand, n int) []string {
 	for i := 0; i < n; i++ {
 		a := [2]uint64{word(r), word(r)}
 		b := [2]uint64{word(r), word(r)}
-		switch r.Intn(8) {
+		switch r.Intn(10) {
+		case 8, 9: // exact multiples (or a tiny remainder) of a divisor wider than 32 bits: the quotient-digit corrections of the 128/64 kernel
+			b[0] = 0
+			if r.Chance(1, 4) {
+				b[0] = r.BitLen64() >> uint(r.Intn(64))
+			}
+			b[1] = r.U64() >> uint(r.Intn(31))
+			if r.Chance(1, 3) {
+				b[1] |= 0xFFFFFFFF // low half all ones: large vn0 makes the estimate overshoot
+			}
+			if b[1] == 0 {
+				b[1] = 0x100000001
+			}
+			q := [2]uint64{0, r.U64() >> uint(r.Intn(40))}
+			if r.Chance(1, 3) {
+				q[1] |= 0xFFFFFFFF
+			}
+			p := mulU(q, b)
+			s := num.Uint128FromComponents(p[0], p[1]).Add64(uint64(r.Intn(3)))
+			a[0], a[1] = s.Components()
 		case 0: // small divisor, wide dividend
 			b[0] = 0
 		case 1: // divisor with a high word, dividend just above / far above
